@@ -78,17 +78,17 @@ pub fn e1_jobs(prop: &str, tier: Tier) -> (Vec<E1Job>, usize) {
     let fam = if q { 64 } else { 400 };
     let jobs = match prop {
         "C01" | "C05" => if q { vec![pa(3), E1Job { profile: Profile::A { times: vec![1, 3, 5] }, depth: 3, alt_map: true }, pbs(4), pc(6), pd(4), pdj(5), pe(1, true, 2), paj(4), pa15(4), ped(3), pill(4), E1Job { profile: Profile::S, depth: 2, alt_map: false }] } else { vec![pa15(4), pb(4), pc(8), pc3(9), paj(5), paj5(4), pd(5), pe(2, true, 2), pe(1, false, 3), pa(4), E1Job { profile: Profile::S, depth: 3, alt_map: false }] },
-        "C02" => if q { vec![pb(3), pbs(4), pbj(4), pd(5), pdj(4), pill(4)] } else { vec![pb(4), pbs(5), pbj(5), pd(6), pdj(5)] },
+        "C02" => if q { vec![pb(3), pbs(4), pbj(4), pd(5), pdj(4), pill(4), ped(4)] } else { vec![pb(4), pbs(5), pbj(5), pd(6), pdj(5)] },
         "C03" => if q { vec![pd(5), pdj(5), pf(4), pe(1, true, 2), pill(4)] } else { vec![pd(6), pdj(6), pf(5), pe(2, true, 2)] },
         "C04" => if q { vec![pa1(3), pbs(3), pc(6), paj(4), pd(4), pe(1, true, 2), pf(4), pill(4), E1Job { profile: Profile::S, depth: 2, alt_map: false }, pc3(8)] } else { vec![pa(3), pbs(4), pc(8), pd(5), pe(2, true, 2), pf(5)] },
         "C07" => if q { vec![pe(1, true, 2), pe(2, true, 1), pe(1, false, 3), ped(4)] } else { vec![pe(2, true, 2), pe(1, true, 3), ped(5)] },
-        "C10" => if q { vec![pa(3), pb(3), pbs(4), pbj(4), pc(6), pd(6), pdj(5), paj(4), pa15(4), pill(4)] } else { vec![pa(3), pa1(4), pb(4), pbs(5), pc(8), pd(7)] },
+        "C10" => if q { vec![pa(3), pb(3), pbs(4), pbj(4), pc(6), pd(6), pdj(5), paj(4), pa15(4), pill(4), E1Job { profile: Profile::S, depth: 2, alt_map: false }] } else { vec![pa(3), pa1(4), pb(4), pbs(5), pc(8), pd(7)] },
         "C12" => if q { vec![pf(4)] } else { vec![pf(6)] },
         "C13" => if q { vec![pf(5), pe(1, true, 2), pe(2, true, 1), paj(3), E1Job { profile: Profile::S, depth: 3, alt_map: false }] } else { vec![pf(5), pe(2, true, 2), E1Job { profile: Profile::S, depth: 3, alt_map: false }] },
         "C04x" => vec![],
         "C18" => if q { vec![pill(4), pc(7), pbs(3), pbj(4), pn(3), paj(4), pc3(9)] } else { vec![pill(5), pc(8), pc3(10), paj(5), pb(4), pbj(5), pn(4), pe(1, true, 2)] },
         "C19" => if q { vec![pa15(3), pb(3), pd(5), pe(1, true, 2), pc(5), paj(4), pill(5)] } else { vec![pa(3), pb(3), pbs(4), pd(5), pe(1, true, 2), pc(6), pf(4), paj(5), paj5(4)] },
-        "C20" => if q { vec![pn(5), pill(4), pb(3), pc(7), pd(5), pe(1, true, 2), paj(4), pa15(3)] } else { vec![pn(5), pb(4), pc(8), pd(6), pe(1, true, 2)] },
+        "C20" => if q { vec![pn(4), pill(4), pb(3), pc(7), pd(5), pe(1, true, 2), paj(4), pa15(3)] } else { vec![pn(5), pb(4), pc(8), pd(6), pe(1, true, 2)] },
         _ => vec![],
     };
     let mut jobs = jobs;
@@ -101,7 +101,7 @@ pub fn e1_jobs(prop: &str, tier: Tier) -> (Vec<E1Job>, usize) {
         }
     }
     let fam_n = match prop {
-        "C01" | "C02" | "C04" | "C05" | "C10" | "C12" | "C13" | "C18" | "C20" | "C03" => fam,
+        "C01" | "C02" | "C04" | "C05" | "C07" | "C10" | "C12" | "C13" | "C18" | "C20" | "C03" => fam,
         _ => 0,
     };
     // the thorough tier explores a superset of the quick tier: every quick job that no thorough job of the
@@ -173,7 +173,7 @@ pub fn run_e1(prop: &str, tier: Tier, budget: Duration, frag: &mut Frag) {
         if matches!(job.profile, Profile::Ill) {
             props.continue_after_reject = true;
         }
-        let run = E1Run { resmap: if job.alt_map { vec![4, 1, 5, 3, 0, 2] } else { crate::hsys::Ctx::identity_map() }, c19_maps: if prop == "C19" { if tier == Tier::Quick { 12 } else { 360 } } else { 0 }, profile: &job.profile, depth: job.depth, props, need, deadline: t0 + share, threads: threads() };
+        let run = E1Run { resmap: if job.alt_map { vec![4, 1, 5, 3, 0, 2] } else { crate::hsys::Ctx::identity_map() }, c19_maps: if prop == "C19" { if tier == Tier::Quick { 12 } else { 360 } } else { 0 }, profile: &job.profile, depth: job.depth, props, need, deadline: t0 + share, threads: threads(), user_pool: None };
         let r = run_profile(&run);
         let wall = t0.elapsed().as_secs_f64();
         frag.parts.push(stats_json(&format!("{}{}", job.profile.label(), if job.alt_map { " [resources mapped onto large / colliding-under-truncation dynamic ids]" } else { "" }), job.depth, &r, wall));
@@ -185,6 +185,21 @@ pub fn run_e1(prop: &str, tier: Tier, budget: Duration, frag: &mut Frag) {
             frag.samples.extend(r.samples.into_iter().take(2));
         }
         frag.col.merge(r.col);
+    }
+    if prop == "C03" {
+        // the same barrier profiles with a user-supplied pool of one thread attached before the registrations: what a
+        // barrier orders does not depend on how much can run at once
+        for (profile, depth) in [(Profile::D { access: acc(&[(&[], &[]), (&[0], &[]), (&[], &[0]), (&[], &[1])]) }, 4usize), (Profile::DJ, 4)] {
+            let t0 = Instant::now();
+            let run = E1Run { resmap: crate::hsys::Ctx::identity_map(), c19_maps: 0, profile: &profile, depth, props, need, deadline: t0 + Duration::from_secs(20), threads: threads(), user_pool: Some(1) };
+            let r = run_profile(&run);
+            frag.parts.push(stats_json(&format!("{} [a user-supplied pool of 1 thread attached first]", profile.label()), depth, &r, t0.elapsed().as_secs_f64()));
+            frag.states += r.stats.states;
+            frag.transitions += r.stats.transitions;
+            frag.traces_validated += r.stats.states;
+            frag.exhaustive &= !r.stats.capped;
+            frag.col.merge(r.col);
+        }
     }
     if prop == "C19" {
         // relabelling sweep first: it is cheap and must not be starved by the profile jobs
@@ -234,21 +249,30 @@ pub fn run_e1(prop: &str, tier: Tier, budget: Duration, frag: &mut Frag) {
 pub fn confirm(f: &crate::report::Finding) -> Option<bool> {
     let kind = f.replay.get("kind").and_then(|k| k.as_str())?;
     match kind {
-        "plan" => {
+        "plan" | "plan-wide" => {
             let ops = crate::spec::plan_from_json(f.replay.get("ops")?)?;
             let info = PlanInfo::of(&ops);
             let mut need = need_for(&f.prop);
             need.debug = true;
-            let o = crate::obs::observe(&ops, &crate::hsys::Ctx::identity_map(), need);
+            let resmap: Vec<u8> = f.replay.get("resmap").and_then(|m| m.as_array()).map(|a| a.iter().filter_map(|x| x.as_u64().map(|y| y as u8)).collect()).unwrap_or_else(crate::hsys::Ctx::identity_map);
+            if f.prop == "C19" || f.sig == "redundant-barrier-changes-plan" {
+                return None;
+            }
             let mut p = Props::from_list(&[f.prop.as_str()]);
             p.c10_all = true;
             // the finding may stem from a sequence that goes on after a (rightly) rejected call
             p.continue_after_reject = true;
-            let vs = crate::inv::check_state(&p, &ops, &info, &o, false);
-            if f.prop == "C19" || f.sig == "redundant-barrier-changes-plan" {
-                return None;
+            // ... or from a run in which a user-supplied pool was attached before the registrations
+            for pool in [None, Some(1usize), Some(2)] {
+                crate::obs::set_e1_user_pool(pool);
+                let o = crate::obs::observe(&ops, &resmap, need);
+                crate::obs::set_e1_user_pool(None);
+                let vs = crate::inv::check_state(&p, &ops, &info, &o, false);
+                if vs.iter().any(|v| v.prop == f.prop && v.sig == f.sig) {
+                    return Some(true);
+                }
             }
-            Some(vs.iter().any(|v| v.prop == f.prop && v.sig == f.sig))
+            Some(false)
         }
         "schedule" => {
             let sc = Scenario::from_json(f.replay.get("scenario")?)?;
@@ -481,6 +505,21 @@ pub fn e2_jobs(prop: &str, tier: Tier) -> Vec<E2Job> {
             }
         }
         jobs.push(E2Job { label: "a system panics in the first of three dispatches (caught): the later dispatches run every system once".into(), scenarios: scs, bounds: b(if q { 0 } else { 1 }), delay: false });
+        // async dispatcher x thread-local systems: whatever is called between dispatch and wait, the dispatch runs
+        // its thread-local systems once (inside that wait)
+        let mut scs = Vec::new();
+        for p in tl(2) {
+            let info = PlanInfo::of(&p);
+            if !info.nodes.iter().any(|n| n.kind == crate::spec::Kind::Tl && n.parent.is_none()) {
+                continue;
+            }
+            for script in ["DW", "DRW", "DXW", "DOW", "DMW", "DWDW", "DDW"] {
+                let mut sc = Scenario::plain(p.clone(), Mode::Async, 0);
+                sc.script = Some(script.to_string());
+                scs.push(sc);
+            }
+        }
+        jobs.push(E2Job { label: "async scripts over thread-local plans: polling / accessors between dispatch and wait".into(), scenarios: scs, bounds: b(if q { 0 } else { 1 }), delay: false });
         // pool-size sweep: stages wider than / equal to / narrower than the pool
         let mut scs = Vec::new();
         for w in [2usize, 3, 5, 7] {
@@ -591,6 +630,7 @@ pub fn e2_jobs(prop: &str, tier: Tier) -> Vec<E2Job> {
                 }
                 jobs.push(E2Job { label: "batches whose controller dispatches the inner plan 2-3 times (hand-written / MultiDispatcher), single panicking system, then a clean dispatch".into(), scenarios: panic_scen(&plans, &[Mode::Dispatch, Mode::Seq], false), bounds: b(1), delay: false });
             }
+            jobs.push(E2Job { label: "barrier plans of <= 3 ops (leading / repeated barriers, dependencies across them), single panicking system".into(), scenarios: panic_scen(&barr(3), &[Mode::Dispatch, Mode::Seq], false), bounds: b(1), delay: false });
             jobs.push(E2Job { label: "3-op plans, single panicking system".into(), scenarios: panic_scen(&depplans(3).into_iter().filter(|p| p.len() == 3).collect::<Vec<_>>(), &[Mode::Dispatch], !q), bounds: b(if q { 1 } else { 2 }), delay: false });
             {
                 // plans in which the balancing rule really forms groups of 2+ systems (running-time hints 1..3),
@@ -617,6 +657,25 @@ pub fn e2_jobs(prop: &str, tier: Tier) -> Vec<E2Job> {
             if !q {
                 jobs.push(E2Job { label: "small batch plans with an outer system".into(), scenarios: panic_scen(&eb(2), &[Mode::Dispatch], false), bounds: b(0), delay: false });
             }
+        }
+        "C13" => {
+            // AsyncDispatcher::setup, also while a dispatch is in flight and repeatedly
+            let sy = |n: &str, w: &[u8]| Op::Sys(crate::spec::SysSpec { name: n.into(), reads: vec![], writes: w.to_vec(), time: 3, deps: vec![] });
+            let tlop = || Op::Tl(crate::spec::SysSpec { name: String::new(), reads: vec![], writes: vec![1], time: 3, deps: vec![] });
+            let plans: Vec<Vec<Op>> = vec![
+                vec![sy("a", &[0])],
+                vec![sy("a", &[0]), tlop()],
+                vec![sy("a", &[0]), Op::Batch(crate::spec::BatchSpec { name: "b".into(), deps: vec![], ctrl: crate::spec::CtrlData::Unit, times: 1, multi: false, fetch_data: false, inner: vec![sy("i", &[1]), tlop()] })],
+            ];
+            let mut scs = Vec::new();
+            for p in &plans {
+                for script in ["S", "SS", "DS", "DSW", "SDS", "DSS", "DWS", "DSDW"] {
+                    let mut sc = Scenario::plain(p.clone(), Mode::Async, 0);
+                    sc.script = Some(script.to_string());
+                    scs.push(sc);
+                }
+            }
+            jobs.push(E2Job { label: "async dispatcher: setup before / during / after a dispatch, repeated".into(), scenarios: scs, bounds: b(if q { 1 } else { 2 }), delay: false });
         }
         "C12" => {
             jobs.push(E2Job { label: "thread-local plans, <= 2 ops".into(), scenarios: scen(&tl(2), &[Mode::Dispatch, Mode::Par, Mode::Seq, Mode::Async], &[1]), bounds: b(if q { 2 } else { 3 }), delay: false });
@@ -687,6 +746,23 @@ pub fn e2_jobs(prop: &str, tier: Tier) -> Vec<E2Job> {
                     }
                 }
                 jobs.push(E2Job { label: "async scripts over thread-local plans (<= 2 ops): polling / accessors / second dispatch between dispatch and wait".into(), scenarios: scs, bounds: b(if q { 1 } else { 2 }), delay: false });
+            }
+            {
+                // controllers that dispatch the inner plan 0, 2 or 3 times: the inner thread-local systems run in EVERY pass,
+                // after that pass's ordinary systems
+                let sy = |n: &str, w: &[u8]| Op::Sys(crate::spec::SysSpec { name: n.into(), reads: vec![], writes: w.to_vec(), time: 3, deps: vec![] });
+                let tlop = |w: &[u8]| Op::Tl(crate::spec::SysSpec { name: String::new(), reads: vec![], writes: w.to_vec(), time: 3, deps: vec![] });
+                let mut plans = Vec::new();
+                for multi in [false, true] {
+                    for times in [0u8, 2, 3] {
+                        for inner in [vec![sy("a", &[0]), tlop(&[0])], vec![sy("a", &[0]), sy("b", &[0]), tlop(&[]), tlop(&[0])], vec![tlop(&[])]] {
+                            let batch = Op::Batch(crate::spec::BatchSpec { name: "b".into(), deps: vec![], ctrl: crate::spec::CtrlData::Unit, times, multi, fetch_data: false, inner });
+                            plans.push(vec![batch.clone(), tlop(&[])]);
+                            plans.push(vec![batch]);
+                        }
+                    }
+                }
+                jobs.push(E2Job { label: "batches whose controller dispatches 0 / 2 / 3 times (hand-written and MultiDispatcher) with thread-local systems inside".into(), scenarios: scen(&plans, &[Mode::Dispatch], &[1, 2]), bounds: b(if q { 0 } else { 1 }), delay: false });
             }
             jobs.push(E2Job { label: "thread-local plans, 3 ops".into(), scenarios: scen(&tl(3).into_iter().filter(|p| p.len() == 3).collect::<Vec<_>>(), &[Mode::Dispatch, Mode::Async], &[1]), bounds: b(if q { 1 } else { 2 }), delay: false });
             if !q {
@@ -869,6 +945,28 @@ fn c11_scenarios(w: usize, n: usize) -> Vec<(String, Scenario)> {
         s.foreign_pool = Some(1);
         s.rendezvous = Some((ids.clone(), w as u16));
         v.push((format!("dispatch from a worker of a foreign 1-thread pool / width {} / own pool of {} threads", w, n), s));
+    }
+    // a group of two systems beside a one-system group: the lone system meets the SECOND system of the other group
+    // (the groups of a stage are independent sequences, not positions that advance in lock step)
+    if w == 2 {
+        let sy = |n: &str, r: &[u8], wr: &[u8], t: u8| Op::Sys(crate::spec::SysSpec { name: n.into(), reads: r.to_vec(), writes: wr.to_vec(), time: t, deps: vec![] });
+        let trio = || vec![sy("lone", &[], &[], 5), sy("head", &[], &[0], 1), sy("tail", &[0], &[], 1)];
+        for user in [true, false] {
+            for mode in [Mode::Dispatch, Mode::Async] {
+                let mut s = Scenario::plain(trio(), mode, 2);
+                if user {
+                    s.user_pool = Some(n);
+                } else {
+                    s.default_threads = Some(n);
+                }
+                s.rendezvous = Some((vec![0, 2], 2));
+                v.push((format!("lone system meets the second system of a two-system group / {} threads", n), s));
+            }
+        }
+        let mut s = Scenario::plain(vec![Op::Batch(crate::spec::BatchSpec { name: "b".into(), deps: vec![], ctrl: crate::spec::CtrlData::Unit, times: 1, multi: false, fetch_data: false, inner: trio() })], Mode::Dispatch, 1);
+        s.user_pool = Some(n);
+        s.rendezvous = Some((vec![1, 3], 2));
+        v.push((format!("the same inside a batch / {} threads", n), s));
     }
     // the user-supplied pool handed over late: after the registrations (the batch's sub-dispatcher has been
     // built by then and the default pool is one thread wide), or after a one-thread decoy pool
@@ -1150,6 +1248,29 @@ pub fn run_c15(tier: Tier, budget: Duration, frag: &mut Frag) {
         }
         frag.col.merge(col);
     }
+    // the dispatcher is built and driven from a worker of its own (user-supplied) pool
+    {
+        let mut scs = Vec::new();
+        for (_, p) in plans.iter().take(4) {
+            for script in ["DW", "DWDW", "DRW", "DXW", "DDW", "DOW"] {
+                for n in [2usize, 3] {
+                    let mut sc = Scenario::plain(p.clone(), Mode::Async, 0);
+                    sc.script = Some(script.to_string());
+                    sc.user_pool = Some(n);
+                    sc.script_in_pool = true;
+                    scs.push(sc);
+                }
+            }
+        }
+        let t0 = Instant::now();
+        let opts = ExploreOpts { bounds: vec![0, 1], all_points: false, deadline: t0 + budget / 5, max_execs: u64::MAX, keep_traces: 0, deadlock_prop: Some("C15"), delay_mode: false };
+        let r = run_scenarios(&scs, Mon::default(), &opts);
+        frag.parts.push(json!({"engine":"E2 schedmc","scenarios":"the async dispatcher built and driven from inside install() of its own user-supplied pool (2 / 3 threads); 6 scripts x 4 plans","n_scenarios":scs.len(),"scenarios_completed":r.completed,"preemption_bounds":[0,1],"schedules":r.executions,"states":r.nodes,"transitions":r.transitions,"deadlocks":r.deadlocks,"cap_hit":r.capped,"wall_s":t0.elapsed().as_secs_f64()}));
+        frag.states += r.nodes;
+        frag.transitions += r.transitions;
+        frag.exhaustive &= !r.capped;
+        frag.col.merge(r.col);
+    }
     // plan shapes: every sequence of 2..4|5 stages, each single-group or two groups wide (code that treats runs of
     // single-group stages, or the stage behind them, differently)
     {
@@ -1374,13 +1495,13 @@ pub fn run_c08(tier: Tier, budget: Duration, frag: &mut Frag) {
     frag.traces_validated += st.valid_histories;
     frag.exhaustive &= !st.capped;
     frag.samples.extend(samples);
-    let jobs: Vec<(usize, u32)> = if q { vec![(2, u32::MAX), (3, 2)] } else { vec![(2, u32::MAX), (3, u32::MAX), (4, 2)] };
+    let jobs: Vec<(usize, u32)> = if q { vec![(2, u32::MAX), (3, 3)] } else { vec![(2, u32::MAX), (3, 5), (4, 2)] };
     for (ntasks, bound) in jobs {
         let t1 = Instant::now();
         let c = crate::c08::run_concurrent_part(ntasks, bound, t0 + budget, threads(), &mut frag.col);
         frag.parts.push(json!({
             "engine": "E2 schedmc",
-            "what": format!("{} controlled tasks, each: acquire one of 6 guards (shared/exclusive on 3 cells, typed and by-id paths), hold across a scheduling point, release; every multiset of tasks; outcome of every acquisition compared with the borrow model applied in the executed order", ntasks),
+            "what": format!("{} controlled tasks, each: acquire one of 6 guards (shared/exclusive on 3 cells, typed and by-id paths), hold across a scheduling point, release; every multiset of tasks; EVERY borrow / release of every cell is a scheduling point (the engine links atomic_refcell 0.1.14 with a point in front of each operation), so calls are preempted between two cell operations; oracle: the outcomes are linearizable w.r.t. the shared-xor-exclusive model (brute force over all orders of the calls' effects that respect real time)", ntasks),
             "configurations": c.configs, "preemption_bound": if bound == u32::MAX { json!("unbounded") } else { json!(bound) },
             "schedules": c.schedules, "states": c.nodes, "transitions": c.transitions, "acquisitions_that_panicked_on_conflict": c.conflicts_seen, "cap_hit": c.capped, "wall_s": t1.elapsed().as_secs_f64(),
         }));
@@ -1388,7 +1509,7 @@ pub fn run_c08(tier: Tier, budget: Duration, frag: &mut Frag) {
         frag.transitions += c.transitions;
         frag.exhaustive &= !c.capped;
     }
-    frag.assumptions.push("each borrow / release is one atomic RMW inside atomic_refcell (a dependency); operation granularity is therefore the atomicity granularity; memory ordering of the payload is outside this check".into());
+    frag.assumptions.push("each borrow / release is one atomic RMW inside atomic_refcell (its logic is linked unchanged, with a scheduling point in front of every operation); memory ordering of the payload (sequentially consistent execution) is outside this check".into());
 }
 
 // ---------------------------------------------------------------------------
